@@ -13,7 +13,7 @@ MANIFEST = {
             "booleans/octet/UTF-8/time strings round-trip; every read returns exactly the bytes after the value; arbitrarily nested writer trees are read back by an independent strict "
             "recursive-descent parser and concatenations are read in order with nothing left. Tie to _asn1.py: kernels + differential correspondence (extracted model vs implementation) on "
             "integer boundary tables up to 2^4096, all integers of <= 3 content octets (thorough), tag/length tables, OIDs, random nested trees and a malformed stream.",
-    "note": "The writer refuses OIDs whose second arc exceeds 39 (so 2.40+ cannot be written) and the reader takes only the first content octet as 40*a+b; universal tag numbers above 36 are "
+    "note": "Refuted/C07_int_reader_prefix.v documents D1/D2 on a snapshot of the unrepaired reader. The writer refuses OIDs whose second arc exceeds 39 (so 2.40+ cannot be written) and the reader takes only the first content octet as 40*a+b; universal tag numbers above 36 are "
             "written but refused by the reader (TypeTagNumber). Both are stated in the theorems as domain limits of the code, not violations. Content lengths are < 256^126.",
     "technique": "Coq proof (relational DER spec, induction over digits/trees) + kernels + differential correspondence with an independent strict DER reader as oracle",
 }
@@ -25,7 +25,7 @@ ASSUMPTIONS = [
 RULE = ("boundary tables first (integers +-2^k, +-2^k+-1 for k <= 4096; lengths 0,1,127,128,255,256,65535,65536; tag numbers 0,1,30,31,127,128,16383,16384,2^32; all four classes), then "
         "seeded random values/trees; a separate malformed stream of mutated encodings compared by outcome bucket; non-trivial = the case produced bytes or a distinct error class; "
         "distinct = distinct canonical case text per unit")
-PARTIAL: list = []
+PARTIAL: list = []  # every statement of DESIGN 7/C07 is proved; TLV round trips carry the stated side condition len(content) < 256^126
 
 DELIBERATE = {"ValueError", "NotImplementedError", "NotEnoughData", "InvalidTag", "InvalidUnwrap"}
 UNIVERSAL_NUMBERS = set(range(0, 37))
